@@ -974,11 +974,13 @@ pub fn c16_judge(text_a: &str, text_b: &str) -> Result<&'static str, Failure> {
     let spans = |t: &str| -> Option<(Vec<(TokKind, String)>, Vec<(usize, usize)>, bool)> {
         match reftok::tokenize(t) {
             Ok(v) => Some((v.iter().map(|x| (x.kind, x.text.clone())).collect(), v.iter().map(|x| (x.start, x.end)).collect(), true)),
-            Err(f) => Some((
-                f.tokens_before.iter().map(|x| (x.kind, x.text.clone())).collect(),
-                f.tokens_before.iter().map(|x| (x.start, x.end)).collect(),
-                false,
-            )),
+            Err(f) => {
+                // the offending lexeme gets a pseudo-span from its start to the end of the text: positions inside
+                // (or just past) it keep their offset from its start
+                let mut sp: Vec<(usize, usize)> = f.tokens_before.iter().map(|x| (x.start, x.end)).collect();
+                sp.push((f.at, t.len() + 1));
+                Some((f.tokens_before.iter().map(|x| (x.kind, x.text.clone())).collect(), sp, false))
+            }
         }
     };
     let (ka, sa, oka) = spans(text_a).unwrap();
